@@ -629,12 +629,18 @@ theorem nodup_dedup (l : List Nat) : (dedup l).Nodup := by
   | nil => exact List.nodup_nil
   | cons x xs ih => exact nodup_ins ih
 
+theorem enableP_inv (s : State) (e : Nat) (h : Inv s) : Inv (enableP repaired s e).1 := by
+  unfold enableP; split
+  · exact h
+  · exact enable_inv s e h
+
 theorem act_inv (s : State) (l : Nat) (a : Act) (h : Inv s) : Inv (act repaired s l a) := by
   cases a with
   | enable j => exact enable_inv s j h
   | disable j => exact disable_inv s j h
   | destroy j => exact destroy_inv s j h
   | init j sg o => exact initEv_inv s j _ o h (nodup_dedup sg)
+  | enableP j => exact enableP_inv s j h
 
 theorem runScript_inv (s : State) (l : Nat) (as : List Act) (h : Inv s) : Inv (runScript repaired s l as) := by
   induction as generalizing s with
@@ -838,6 +844,7 @@ theorem step_inv (s : State) (op : Op) (h : Inv s) (hv : valid s op = true) : In
   | raiseW g wf => exact raiseW_inv s g wf h
   | passC l ord cs => exact passC_inv s l ord cs h
   | setCap b => exact inv_of_core h (core_congr h.core rfl rfl rfl rfl rfl) rfl rfl rfl rfl
+  | enableP e => exact enableP_inv s e h
 
 /-- every state reachable by a history of the property satisfies the invariant -/
 theorem exec_inv (s : State) (ops : List Op) (h : Inv s) (s' : State) (he : exec repaired s ops = some s') : Inv s' := by
